@@ -94,7 +94,10 @@ class Ref:
                 for n in self.spec.subgraph_nodes(rm.start, rm.dest):
                     self.memo.pop(n, None)
                     self.epochs[n] = self.epochs.get(n, 0) + 1
-                self.ad[rm.start] = out.data
+                if out.data is None:
+                    self.ad.pop(rm.start, None)  # next_iteration(None): the start node gets no additional_data
+                else:
+                    self.ad[rm.start] = out.data
                 out = self._eval_once(name)
                 iters += 1
             if isinstance(out, RecOut):
@@ -233,5 +236,6 @@ class Ref:
                 rc = self.rec_count.get(nd.name, 0)
                 if rc < self.beh.want(nd):
                     self.rec_count[nd.name] = rc + 1
-                    return RecOut(v + REC_DATA_OFFSET, dict(kwargs))
+                    data = None if self.beh.rec_data_is_none(nd, rc) else v + self.beh.rec_offset(nd)
+                    return RecOut(data, dict(kwargs))
             return Val(v)
